@@ -126,6 +126,22 @@ impl State {
     }
 }
 
+// Verification hook (off unless built with `--cfg dryoc_verif`): lets a check
+// start a stream from an arbitrary (key, nonce) state, e.g. with the message
+// counter at 0xffffffff, and read the state back.
+#[cfg(dryoc_verif)]
+impl State {
+    #[doc(hidden)]
+    pub fn verif_from_parts(k: Key, nonce: Nonce) -> Self {
+        Self { k, nonce }
+    }
+
+    #[doc(hidden)]
+    pub fn verif_parts(&self) -> (&Key, &Nonce) {
+        (&self.k, &self.nonce)
+    }
+}
+
 /// Generates a random stream key using [crate::rng::copy_randombytes].
 pub fn crypto_secretstream_xchacha20poly1305_keygen(key: &mut Key) {
     copy_randombytes(key);
